@@ -285,3 +285,6 @@ func RandBytes(r *rand.Rand, n int) []byte {
 
 // Pick returns one of the given ints.
 func Pick(r *rand.Rand, v ...int) int { return v[r.Intn(len(v))] }
+
+// Pick2 returns one of the given strings.
+func Pick2(r *rand.Rand, v ...string) string { return v[r.Intn(len(v))] }
